@@ -801,5 +801,3 @@ Proof.
   - exact I.
 Qed.
 End Main.
-Check exec_refines_peg.
-Print Assumptions exec_refines_peg.
